@@ -121,8 +121,9 @@ def run(ctx):
     ctx.level = 'other'
     ctx.explanation = (
         'Hybrid. PROVED for all inputs (pyvc): the contracts of force_alignment.py listed under functions_under_contract, including the DP '
-        'invariant of viterbi_align (act_cost = V(t,.), V given by the Bellman optimality conditions; V = minimum over all state paths is validated '
-        'against brute force in the bounded tier). '
+        'invariant of viterbi_align (act_cost = V(t,.), V given by the Bellman optimality conditions) and its minimality: V(t, .) is a lower bound of the '
+        'accumulated cost of EVERY allowed state path (inductive lemma over an uninterpreted path), so no allowed path ending in a final state is '
+        'cheaper than the returned one. '
         'BOUNDED: force_align returns one symbol per frame that collapses to the labels with cost equal to the brute-force minimum '
         'over ALL frame labelings, raises exactly when no finite-cost alignment exists or the blank is among the labels; align_text '
         'positions are strictly increasing and each is the most confident frame of its block — on every cost matrix of a finite grid '
